@@ -510,6 +510,7 @@ Qed.
 
 Section MGS.
   Variable pub : Q.                         (* bound handed to the integer product helper *)
+  Variable piub : Q.                        (* upper bound of the pi columns *)
   Variable I : mgs_inst.
   Variable k : nat.
   Let total := mg_total I.
@@ -524,7 +525,7 @@ Section MGS.
        (forall i, In i (layers k) ->
           exists z : Z, a (Xv i j) == inject_Z z /\ (0 <= z <= Z.of_nat (mg_mult I))%Z /\
                         (mult1 I = false -> (z < 2 ^ Z.of_nat (num_bits pub))%Z) /\
-                        a (Pij i j) == a (Xv i j) * a (Gen i)) /\
+                        a (Pij i j) == a (Xv i j) * a (Gen i) /\ a (Pij i j) <= piub) /\
        sumq (fun i => a (Pij i j)) (layers k) == aj) /\
     (forall i, In i (layers (k - 2)) -> a (Gen i) <= a (Gen (i + 1)%N)) /\
     (forall c cs, In (c, cs) (zipn 0 (parts_of I)) ->
@@ -545,11 +546,11 @@ Section MGS.
                             (zipn 0 (snd cc))) (zipn 0 (parts_of I)).
   Proof. unfold part_rows, ijc. destruct (parts_of I); [congruence|reflexivity]. Qed.
 
-  Theorem mgs_enc_sound a : sat a (encode_mgs_gen pub I k) -> mgs_sem a.
+  Theorem mgs_enc_sound a : sat a (encode_mgs_gen pub piub I k) -> mgs_sem a.
   Proof.
     unfold sat, encode_mgs_gen. cbn [cols rows]. unfold mgs_cols, mgs_rows.
     rewrite !Forall_app. intros ((CG & CX & CP & CB & CY) & (RT & RJ & RS & RP)).
-    rewrite Forall_map_iff in CG. rewrite Forall_flat_map in CX. rewrite Forall_flat_map in RJ.
+    rewrite Forall_map_iff in CG. rewrite Forall_flat_map in CX. rewrite Forall_flat_map in RJ. rewrite Forall_flat_map in CP.
     assert (HG : forall i, In i (layers k) -> 0 <= a (Gen i) <= total /\ (mg_int I = true -> is_int (a (Gen i)))).
     { intros i Hi. destruct (CG i Hi) as (A & B & C). cbn [cvar clb cub cint qcol] in *. fold total in B. tauto. }
     unfold mgs_sem. split; [exact HG|]. split; [|split; [|split]].
@@ -557,11 +558,13 @@ Section MGS.
     - intros j aj Hj. specialize (RJ _ Hj). rewrite Forall_app, Forall_flat_map in RJ. destruct RJ as [RPR RSUM]. cbn [fst snd] in *.
       split.
       + intros i Hi. specialize (RPR i Hi). destruct (HG i Hi) as [HGi _].
+        assert (HPc : a (Pij i j) <= piub).
+        { specialize (CP i Hi). rewrite Forall_map_iff in CP. destruct (CP j (zipn_in_idxs _ _ _ Hj)) as (_ & B & _). exact B. }
         assert (HXc : sat_col a (qcol (Xv i j) 0 (x_ub I) true)).
         { specialize (CX i Hi). rewrite Forall_map_iff in CX. apply CX. eapply zipn_in_idxs. exact Hj. }
         unfold prod_rows in RPR. unfold x_ub in HXc. destruct (mult1 I) eqn:M.
         * assert (Hb : bin (a (Xv i j))) by (apply bin_of_col; exact HXc).
-          destruct (bin_int_range _ _ mult_pos Hb) as (z & Hz & Hr). exists z. split; [exact Hz|]. split; [exact Hr|]. split; [discriminate|].
+          destruct (bin_int_range _ _ mult_pos Hb) as (z & Hz & Hr). exists z. split; [exact Hz|]. split; [exact Hr|]. split; [discriminate|]. split; [|exact HPc].
           apply (mcc_rows_exact a (Xv i j) (Gen i) (Pij i j) 0 (mg_total I) Hb); [exact HGi|exact RPR].
         * rewrite Forall_flat_map in CB.
           assert (HBc : Forall (sat_col a) (intprod_cols (Pij i j) 0 pub (num_bits pub))).
@@ -575,7 +578,7 @@ Section MGS.
           assert (H0t : 0 <= 0 <= pub) by (fold total in pub_ge; lra).
           assert (HGp : 0 <= a (Gen i) <= pub) by (fold total in pub_ge; lra).
           apply (intprod_exact _ _ _ _ _ _ HGp H0t) in Hip. destruct Hip as (z & Hz & Hr & Hp).
-          exists z. split; [exact Hz|]. split; [|split; [intros _; lia|exact Hp]].
+          exists z. split; [exact Hz|]. split; [|split; [intros _; lia|split; [exact Hp|exact HPc]]].
           destruct HXc as (_ & Hu & _). cbn [cvar cub qcol] in Hu. rewrite Hz in Hu. rewrite <- Zle_Qle in Hu. lia.
       + inversion RSUM as [|? ? H1 _]; subst. unfold row_sum_pi in H1. rewrite sat_row_eq, eval_ones_sumq in H1. exact H1.
     - intros i Hi. unfold sym_rows in RS. rewrite Forall_map_iff in RS. specialize (RS i Hi).
@@ -638,8 +641,8 @@ Proof.
   change 1 with (inject_Z 1) in H. rewrite <- inject_Z_plus, <- Zle_Qle in H. lia.
 Qed.
 
-Theorem mgs_enc_sound_code I k a : (1 <= mg_mult I)%nat -> sat a (encode_mgs I k) -> mgs_sem (prod_ub I) I k a.
-Proof. intros Hm Hs. unfold encode_mgs in Hs. exact (mgs_enc_sound (prod_ub I) I k Hm (proj1 (prod_ub_ge I)) a Hs). Qed.
+Theorem mgs_enc_sound_code I k a : (1 <= mg_mult I)%nat -> sat a (encode_mgs I k) -> mgs_sem (prod_ub I) (pi_ub I) I k a.
+Proof. intros Hm Hs. unfold encode_mgs in Hs. exact (mgs_enc_sound (prod_ub I) (pi_ub I) I k Hm (proj1 (prod_ub_ge I)) a Hs). Qed.
 
 Theorem mgs_sound_multiset I k a : (1 <= mg_mult I)%nat -> sat a (encode_mgs I k) ->
   let g := map (fun i => a (Gen i)) (layers k) in
@@ -796,10 +799,10 @@ Proof.
     destruct (HJ 0%N (1 # 2) (or_introl eq_refl)) as [HX0 HS0].
     destruct (HJ 1%N (1 # 4) (or_intror (or_introl eq_refl))) as [HX1 HS1].
     cbn [sumq] in HS0, HS1.
-    destruct (HX0 0%N (or_introl eq_refl)) as (z00 & E00 & R00 & B00 & P00).
-    destruct (HX0 1%N (or_intror (or_introl eq_refl))) as (z10 & E10 & R10 & B10 & P10).
-    destruct (HX1 0%N (or_introl eq_refl)) as (z01 & E01 & R01 & B01 & P01).
-    destruct (HX1 1%N (or_intror (or_introl eq_refl))) as (z11 & E11 & R11 & B11 & P11).
+    destruct (HX0 0%N (or_introl eq_refl)) as (z00 & E00 & R00 & B00 & P00 & _).
+    destruct (HX0 1%N (or_intror (or_introl eq_refl))) as (z10 & E10 & R10 & B10 & P10 & _).
+    destruct (HX1 0%N (or_introl eq_refl)) as (z01 & E01 & R01 & B01 & P01 & _).
+    destruct (HX1 1%N (or_intror (or_introl eq_refl))) as (z11 & E11 & R11 & B11 & P11 & _).
     specialize (B00 eq_refl). specialize (B10 eq_refl). specialize (B01 eq_refl). specialize (B11 eq_refl).
     change (2 ^ Z.of_nat (num_bits _))%Z with 2%Z in *.
     rewrite P00, P10, E00, E10 in HS0. rewrite P01, P11, E01, E11 in HS1.
